@@ -87,9 +87,12 @@ def c02_2(ctx):
         else:
             out.append(ctx.bad("phash:tagged_hash", "cached value depends on %s which the cache key %s does not cover" % (sorted(valn - keyn), sorted(keyn)), st, mod, key="cache-key"))
     # the final digest consumes both the tag prefix and the message
-    rets = [s for s in ast.walk(fn) if isinstance(s, ast.Return) and s.value is not None]
-    for r in rets:
-        names = {n.id for n in ast.walk(r.value) if isinstance(n, ast.Name)}
+    for rn in cfg_of(fn).returns():
+        r = rn.ast
+        if r is None or r.value is None:
+            continue
+        at = origins(fn, rn.id, r.value)
+        names = {n.id for n in ast.walk(r.value) if isinstance(n, ast.Name)} | {a[6:] for a in at if a.startswith("param:")}
         if set(ps) <= names:
             out.append(ctx.ok("phash:tagged_hash", "digest consumes tag midstate and message", r, mod, key="digest-inputs"))
         else:
@@ -150,8 +153,28 @@ def _infinity_key(ctx, spec, mod, fn):
         if ok:
             return [ctx.ok(spec, "a public key at infinity is rejected explicitly (line %d)" % gs[0].node.lineno, gs[0].node.ast, mod, key="key-infinity")]
     # (b) parity is read on every path to a possibly-true return ...
+    def reads_parity(node_ast, recv):
+        return any(isinstance(a, ast.Attribute) and a.attr == "parity" and dotted(a.value) == recv for a in ast.walk(node_ast))
+
+    def must_read(qual, depth=0):
+        """every path through the method `S256Point.<qual>` reads self.parity (directly or through such a method)"""
+        f2 = mod.functions.get("S256Point." + qual)
+        if f2 is None or depth > 2:
+            return False
+        c2 = cfg_of(f2)
+        me = param_names(f2)[0] if param_names(f2) else "self"
+        rd = {n.id for n in c2.nodes if n.ast is not None and (reads_parity(n.ast, me) or calls_reader(n.ast, me, depth + 1))}
+        reach2 = c2.reach([c2.entry], blocked=frozenset(rd))
+        return not any(n.id in reach2 for n in c2.nodes if n.kind in ("return", "exit", "exit_normal"))
+
+    def calls_reader(node_ast, recv, depth=0):
+        for c in ast.walk(node_ast):
+            if isinstance(c, ast.Call) and isinstance(c.func, ast.Attribute) and dotted(c.func.value) == recv and must_read(c.func.attr, depth):
+                return True
+        return False
+
     readers = {n.id for n in cfg.nodes if n.ast is not None and n.kind in ("test", "stmt", "return")
-               and any(isinstance(a, ast.Attribute) and a.attr == "parity" and dotted(a.value) == selfname for a in ast.walk(n.ast))}
+               and (reads_parity(n.ast, selfname) or calls_reader(n.ast, selfname))}
     reach = cfg.reach([cfg.entry], blocked=frozenset(readers))
     unread = [t for t in tn if t in reach]
     imod, init = rl.get(ctx, "pecc:S256Point.__init__")
